@@ -83,6 +83,7 @@ func execC01(t *testing.T, c *sim.Case) *sim.Result {
 		}
 		model := &plainModel{m: map[string]*plainVal{}}
 		nkeys := int(c.CfgInt("keys", 3))
+		w.TrackTies = nkeys
 		ncf := int(c.CfgInt("cfs", 1))
 		for i, op := range c.Ops {
 			w.step = i
@@ -187,6 +188,9 @@ func diagnose(w *World, cf kv.ColumnFamily, key []byte, exp *plainVal, found boo
 	}
 	if GCRan(w) {
 		sig["vlog_gc_ran"] = "yes"
+	}
+	if w.TieSeen[fmt.Sprintf("%d/%s", cf, key)] {
+		sig["equal_version_tie_seen"] = "yes"
 	}
 	var expCopy, gotCopy = -1, -1
 	for i, cp := range copies {
